@@ -26,6 +26,11 @@ pub fn dw_i32() -> i32 { -3 }
 pub fn dw_bool() -> bool { true }
 pub fn dw_string() -> Buf { Buf::from("dw") }
 pub fn dw_opt() -> Option<u8> { Some(9) }
+#[derive(Debug, Clone, PartialEq, Eq, Hash, PartialOrd, Ord)]
+pub struct Tricky(pub u8);
+impl Tricky { pub const fn default() -> Self { Tricky(9) } }
+impl Default for Tricky { fn default() -> Self { Tricky(0) } }
+pub fn dw_tricky() -> Tricky { Tricky(5) }
 #[derive(Debug, Clone, PartialEq)]
 pub struct UserErr(pub Buf);
 pub fn user_err(s: &str) -> UserErr { UserErr(Buf::from(s)) }
